@@ -578,7 +578,7 @@ func runProperty(t *testing.T, prop string, scenarios []*scenario, props ...stri
 		e := &verifmc.Explorer{
 			Scenario: sc.name, Bound: sc.bound, Shard: shard, NShards: nshards,
 			Deadline: time.Now().Add(share), DetEvery: 50,
-			Inflight: os.Getenv("VERIF_INFLIGHT"),
+			Inflight: os.Getenv("VERIF_INFLIGHT"), ClaimDir: os.Getenv("VERIF_OUT"),
 			Known:    verifmc.KnownFindings(prop),
 			Run:      func(prefix []int) *verifmc.ExecResult { return filterProps(runExec(t, sc, prefix), props) },
 		}
